@@ -85,17 +85,17 @@ def run(rep):
     need = ["Read", "ReadNOp", "Read1N", "Read1All", "ReadInto", "Read0", "Stream", "ChunkedOp", "Iter", "Preload",
             "Dispose", "NextRequest"]
     plans = [("repaired design, intact responses",
-              dict(sc="ScC12", maxops=4, _workers=max(2, bc.JOBS // 2)) if quick else
-              dict(sc="ScC12", maxops=6, after=2, amts="AFull", amts1="A1237", gen="A1237", into="A37", _cov=True, _need=need), None),
+              dict(sc="ScC12S1", maxops=4, _workers=max(2, bc.JOBS // 2)) if quick else
+              dict(sc="ScC12S1", maxops=6, after=2, amts="AFull", amts1="A1237", gen="A1237", into="A37", _cov=True, _need=need), None),
              ("deviation D6 exhibited", dict(sc="ScC12Tiny", kd="JustD6"), bc.DEFECT_CLAUSES["JustD6"]),
              ("deviation D7 exhibited", dict(sc="ScC12Tiny", kd="JustD7"), bc.DEFECT_CLAUSES["JustD7"]),
              *([] if quick else [("repaired design, 12-unit bodies", dict(sc="ScC12Big", maxops=5, lag=5), None)]),
              ("liveness: every call sequence ends", dict(spec="LiveSpec", sc="ScC12Live" if quick else "ScC12Tiny", amts="A2", amts1="A2", into="A2",
                                                          gen="A2", maxops=30, after=0, body="PROPERTY Terminates"), None)]
     J = bc.JOBS
-    ekw = dict(sc=sc, maxops=3, amts="A1237", amts1="A27", into="A3", gen="A27")
+    ekw = dict(sc=sc, maxops=3, amts="A1237", amts1="A7" if quick else "A27", into="A3", gen="A27")
     rng = random.Random(rep.seed * 7919 + 12)
-    rruns = [random_run(rng) for _ in range(2400 if quick else 150000)]
+    rruns = [random_run(rng) for _ in range(1600 if quick else 100000)]
     # probe: stream(amt=None) after a partial sized read on a decoded body.  On a tree that has D6 (read() leaves the
     # decoded buffer behind) this call spins forever; the spin probes are therefore only made when a direct look says
     # the buffer is drained -- a tree with D6 is reported by the ordinary legs anyway (read() after read(n)).
@@ -103,6 +103,8 @@ def run(rep):
         for coding, framing in (("gzip", "cl"), ("zstd", "close"), ("deflate", "cl")):
             rruns.append({"case": {"size": 300, "pseed": 4, "coding": coding, "framing": framing, "decode": True, "seg": None},
                           "ops": [("readn", 7), ("stream", 0)], "drain": ("stream", 0), "preload": False, "deadline": 60.0})
+    for lr in bc.large_runs(False, quick, rep.seed):       # the LARGE size class, spread over the shards
+        rruns.insert(rng.randrange(len(rruns) + 1), lr)
     per_r = max(100, -(-len(rruns) // (2 * J))) if quick else 1000
     with bc.make_pool() as pool, ThreadPoolExecutor(2) as tp:
         if J > 4:       # stage 1, emission and the random leg overlap
